@@ -39,26 +39,27 @@ Definition ex_store : store := {| trees := [[ex_tree; ex_tree]; [placeholder]]; 
 Example ex_offered_nonempty : forallb (fun lang => negb (Nat.ltb (length (offered_for lang)) 1)) [l_en; l_ja] = true.
 Proof. vm_compute. reflexivity. Qed.
 
+(* the sequence theorem instantiated and computed on a concrete history (jigg_xml first: the historically harmful order) *)
 Example ex_history :
   match find_spec l_en [106;105;103;103;95;120;109;108], find_spec l_en [97;117;116;111], find_spec l_en [112;114;111;108;111;103] with
-  | Some fj, Some fa, Some fp => run_seq [fj; fa; fp; fj; fa] ex_store = ([Ok; Ok; Ok; Ok; Ok], ex_store)
+  | Some fj, Some fa, Some fp =>
+      store_eqb (snd (run_seq [fj; fa; fp; fj; fa] ex_store)) ex_store = true
+      /\ fst (run_seq [fj; fa; fp; fj; fa] ex_store) = map (fun f => fst (render f ex_store)) [fj; fa; fp; fj; fa]
   | _, _, _ => False
   end.
-Proof. vm_compute. reflexivity. Qed.
+Proof. vm_compute. split; reflexivity. Qed.
 
 (* the mutation semantics is not idle: the renaming that jigg_xml once did in the caller's tokens (word->surf, lemma->base)
    changes the store, and a following `auto` then fails with KeyError 'word' *)
 Definition old_jigg : spec :=
   {| f_lang := l_en; f_name := [106;105;103;103;95;120;109;108]; f_strict := [];
      f_muts := [(s_tok_move, [119;111;114;100;62;115;117;114;102]); (s_tok_move, [108;101;109;109;97;62;98;97;115;101])]; f_labels := [] |}.
+Definition auto_like : spec := {| f_lang := l_en; f_name := [97;117;116;111]; f_strict := [k_word]; f_muts := []; f_labels := [] |}.
 Example ex_old_jigg_is_caught :
-  match find_spec l_en [97;117;116;111] with
-  | Some fa => changed old_jigg ex_store = true
-               /\ store_eqb (snd (run_seq [old_jigg; fa] ex_store)) ex_store = false
-               /\ fst (run_seq [old_jigg; fa] ex_store) = [Ok; KeyErr k_word]
-               /\ map (fun f => fst (render f ex_store)) [old_jigg; fa] = [Ok; Ok]
-  | None => False
-  end.
+  changed old_jigg ex_store = true
+  /\ store_eqb (snd (run_seq [old_jigg; auto_like] ex_store)) ex_store = false
+  /\ fst (run_seq [old_jigg; auto_like] ex_store) = [Ok; KeyErr k_word]
+  /\ map (fun f => fst (render f ex_store)) [old_jigg; auto_like] = [Ok; Ok].
 Proof. vm_compute. repeat split. Qed.
 Example ex_opaque_is_caught : changed {| f_lang := l_en; f_name := []; f_strict := []; f_muts := [([115;111;114;116], [120])]; f_labels := [] |} ex_store = true.
 Proof. vm_compute. reflexivity. Qed.
